@@ -3,8 +3,10 @@
 set -e
 cd "$(dirname "$0")"
 fail=0
+jt=$(mktemp -d)   # SANY/TLC unpack their standard modules under java.io.tmpdir on every start
+trap 'rm -rf "$jt"' EXIT
 for f in $(find spec -name '*.tla' ! -name 'MC_*Ind.tla' | sort); do
-  out=$(cd "$(dirname "$f")" && java -cp /opt/veriftools/tla/tla2tools.jar:/opt/veriftools/tla/CommunityModules-deps.jar tla2sany.SANY "$(basename "$f")" 2>&1) || true
+  out=$(cd "$(dirname "$f")" && java -Djava.io.tmpdir="$jt" -cp /opt/veriftools/tla/tla2tools.jar:/opt/veriftools/tla/CommunityModules-deps.jar tla2sany.SANY "$(basename "$f")" 2>&1) || true
   if echo "$out" | grep -q -E "Fatal errors|\*\*\* Errors|Parse Error|Could not find module"; then
     echo "SANY FAILED: $f"; echo "$out" | tail -20; fail=1
   fi
